@@ -137,8 +137,26 @@ func (state *State) NextBlock() wire.Block {
 	state.pendingBlockSize -= state.blocksRequested[0].size
 	state.lastSavedHash = state.blocksRequested[0].hash
 	state.blocksRequested = state.blocksRequested[1:] // Remove first item
+	state.processingBlock = true
 
 	return result
+}
+
+// BlockProcessed is called when the block returned by NextBlock has been processed (or rejected).
+func (state *State) BlockProcessed() {
+	state.lock.Lock()
+	defer state.lock.Unlock()
+
+	state.processingBlock = false
+}
+
+// ProcessingBlock returns true while a block returned by NextBlock is still being processed. It is
+// no longer in the request list and not in the block repository yet.
+func (state *State) ProcessingBlock() bool {
+	state.lock.Lock()
+	defer state.lock.Unlock()
+
+	return state.processingBlock
 }
 
 func (state *State) GetNextBlockToRequest() (*bitcoin.Hash32, int) {
